@@ -538,6 +538,14 @@ func C10(c *core.Ctx) {
 			c.Funcs[core.FuncName(fn)] = true
 			frame := ssa.Value(fn.Params[1])
 			var writes []ssa.Instruction
+			// buffers the frame is copied into stand for the frame (the internal transport
+			// queues a copy)
+			copies := map[ssa.Value]bool{}
+			core.Instrs(fn, func(in ssa.Instruction) {
+				if cl, ok := isBuiltinCall(in, "copy"); ok && len(cl.Call.Args) == 2 && core.Strip(cl.Call.Args[1]) == frame {
+					copies[core.Strip(cl.Call.Args[0])] = true
+				}
+			})
 			core.Instrs(fn, func(in ssa.Instruction) {
 				switch x := in.(type) {
 				case *ssa.Send:
@@ -552,7 +560,10 @@ func C10(c *core.Ctx) {
 					}
 				case ssa.CallInstruction:
 					for _, a := range x.Common().Args {
-						if core.Strip(a) == frame {
+						if core.Strip(a) == frame || copies[core.Strip(a)] {
+							if b, isB := x.Common().Value.(*ssa.Builtin); isB && b.Name() == "copy" {
+								continue
+							}
 							if id, ok := core.Callee(x.Common()); ok && !strings.HasPrefix(id.Pkg, "fw/core") && id.Pkg != "builtin" {
 								// a predicate of the package that only looks at the frame
 								// (exceedsMTU(frame) bool) is not a write
